@@ -5,6 +5,7 @@ from cv import flow, rules
 from cv.rules import events_of, order_after_success
 
 TITLE = "A garbage collection and a backup running together never lose data"
+TECHNIQUE = 'static analysis: check-then-act shape of the gc/backup interlock by MIR dominance and guards (outcomes over schedules are not decided)'
 EXPLANATION = (
     "Outcomes over schedules are not decidable statically. Decided is whether the interlock has the SHAPE that is "
     "safe under sequentially consistent storage - each side raises its own flag, then reads the other's: "
